@@ -69,6 +69,13 @@ Definition v_reindexed (i : Z) (v : view) : view :=
   | d :: sub => mkview (d_reindex d i :: sub) (base v)
   end.
 Definition v_blocked (a b : Z) (v : view) : view := v_reindexed a (v_sliced a b v).
+(* reindexed(first, idxs...) = reindexed(first).rotated().reindexed(idxs...).unrotated() : :1199-1202 *)
+Fixpoint v_reindexedL (is : list Z) (v : view) : view :=
+  match is with
+  | [] => v
+  | [i] => v_reindexed i v
+  | i :: rest => v_unrotated (v_reindexedL rest (v_rotated (v_reindexed i v)))
+  end.
 
 (* partitioned : :1423-1431, :3014-3020 *)
 Definition v_partitioned (n : Z) (v : view) : view :=
@@ -150,7 +157,8 @@ Inductive op :=
 | OFlatted
 | OParen (args : list parg)
 | OReindexed (i : Z)
-| OBlocked (a b : Z).
+| OBlocked (a b : Z)
+| OReindexedL (is : list Z).     (* reindexed(i, j, ...) : array_ref.hpp:1199-1202 *)
 
 Definition exec_op (o : op) (v : view) : view :=
   match o with
@@ -172,6 +180,7 @@ Definition exec_op (o : op) (v : view) : view :=
   | OParen args => v_paren args v
   | OReindexed i => v_reindexed i v
   | OBlocked a b => v_blocked a b v
+  | OReindexedL is => v_reindexedL is v
   end.
 
 (* ---- documented domains ---- *)
@@ -211,6 +220,7 @@ Definition dom_op (o : op) (v : view) : bool :=
   | OParen args => (Z.of_nat (length args) <=? D) && dom_paren args v
   | OReindexed _ => 1 <=? D
   | OBlocked a b => (1 <=? D) && in_slice e a b
+  | OReindexedL is => (1 <=? Z.of_nat (length is)) && (Z.of_nat (length is) <=? D)
   end.
 
 Definition apply_op (o : op) (v : view) : option view :=
